@@ -815,14 +815,57 @@ class _Ret(Exception):
         self.v = v
 
 
-class _ParenInterp:
-    """symbolic run of print_tuple_element on (left, op, right): returns the displayed string with <L>/<R> placeholders"""
+class _Env(dict):
+    """a scope: names bound here, then the enclosing scope — looked up when the name is *read* (a closure created in a
+    loop sees the loop variable's value at call time, as in Python)"""
+    def __init__(self, parent=None):
+        super().__init__()
+        self.parent = parent
 
-    def __init__(self, fn, op, left, right):
+    def lookup(self, name):
+        e = self
+        while e is not None:
+            if dict.__contains__(e, name):
+                return dict.__getitem__(e, name)
+            e = e.parent
+        raise KeyError(name)
+
+    def has(self, name):
+        try:
+            self.lookup(name)
+            return True
+        except KeyError:
+            return False
+
+
+class _Closure:
+    def __init__(self, node, env, defaults):
+        self.node, self.env, self.defaults = node, env, defaults
+
+
+class _ParenInterp:
+    """symbolic run of print_tuple_element on (left, op, right): returns the displayed string with <L>/<R> placeholders.
+    A small concrete evaluator: strings, tuples, lists, dicts, closures (lambdas / local defs / module-level tables built
+    by loops), if / for / return — whatever it does not know makes the rule undecided."""
+
+    def __init__(self, fn, op, left, right, module_tree=None):
         self.fn = fn
         self.params = [a.arg for a in fn.args.args]
         self.tuple = (left, op, right)
-        self.env = {}
+        self.globals = _Env()
+        self.env = _Env(self.globals)
+        if module_tree is not None:
+            # module-level tables the function may consult: statements that cannot be evaluated are skipped (a name
+            # they would have bound stays unknown)
+            saved = self.env
+            self.env = self.globals
+            for st in module_tree.body:
+                if isinstance(st, (ast.Assign, ast.For, ast.AugAssign)) or (isinstance(st, ast.Expr) and isinstance(st.value, ast.Call)):
+                    try:
+                        self.block([st])
+                    except (_Undecided, _Ret, KeyError, TypeError, AttributeError, IndexError):
+                        pass
+            self.env = saved
 
     def run(self):
         self.env[self.params[1]] = self.tuple
@@ -849,12 +892,33 @@ class _ParenInterp:
                     elif isinstance(t, ast.Tuple) and isinstance(v, tuple) and len(v) == len(t.elts):
                         for a, b in zip(t.elts, v):
                             self.env[a.id] = b
+                    elif isinstance(t, ast.Subscript) and isinstance(self.ev(t.value), dict):
+                        k = self.ev(t.slice)
+                        if not isinstance(k, (str, int, bool, tuple)):
+                            raise _Undecided("dictionary key")
+                        self.ev(t.value)[k] = v
                     else:
                         raise _Undecided("assignment target")
             elif isinstance(s, ast.Return):
                 raise _Ret(self.ev(s.value) if s.value is not None else None)
             elif isinstance(s, ast.FunctionDef):
                 self.env[s.name] = s
+            elif isinstance(s, ast.For):
+                it = self.ev(s.iter)
+                if not isinstance(it, (list, tuple)):
+                    raise _Undecided(f"loop over {norm(s.iter)[:40]}")
+                for v in list(it):
+                    if isinstance(s.target, ast.Name):
+                        self.env[s.target.id] = v
+                    elif isinstance(s.target, ast.Tuple) and isinstance(v, tuple) and len(v) == len(s.target.elts) \
+                            and all(isinstance(t, ast.Name) for t in s.target.elts):
+                        for t, x in zip(s.target.elts, v):
+                            self.env[t.id] = x
+                    else:
+                        raise _Undecided("loop target")
+                    self.block(s.body)
+            elif isinstance(s, ast.Expr) and isinstance(s.value, ast.Call):
+                self.ev(s.value)
             elif isinstance(s, (ast.Pass, ast.Expr)):
                 continue
             else:
@@ -864,11 +928,22 @@ class _ParenInterp:
         if isinstance(e, ast.Constant):
             return e.value
         if isinstance(e, ast.Name):
-            if e.id in self.env:
-                return self.env[e.id]
+            if self.env.has(e.id):
+                return self.env.lookup(e.id)
             if e.id in ("tuple", "str", "ExplainableObject"):
                 return ("class", e.id)
             raise _Undecided(f"name {e.id}")
+        if isinstance(e, ast.Lambda):
+            ds = e.args.defaults
+            names = [a.arg for a in e.args.args]
+            return _Closure(e, self.env, {n: self.ev(d) for n, d in zip(names[len(names) - len(ds):], ds)})
+        if isinstance(e, ast.Dict):
+            out = {}
+            for k, v in zip(e.keys, e.values):
+                if k is None:
+                    raise _Undecided("dict unpacking")
+                out[self.ev(k)] = self.ev(v)
+            return out
         if isinstance(e, ast.Tuple):
             return tuple(self.ev(x) for x in e.elts)
         if isinstance(e, (ast.List, ast.Set)):
@@ -876,7 +951,11 @@ class _ParenInterp:
         if isinstance(e, ast.Subscript):
             b = self.ev(e.value)
             k = self.ev(e.slice)
-            if isinstance(b, tuple) and isinstance(k, int):
+            if isinstance(b, (tuple, list)) and isinstance(k, int):
+                return b[k]
+            if isinstance(b, dict):
+                if k not in b:
+                    raise _Undecided(f"key {k!r} missing")
                 return b[k]
             if isinstance(b, _Elem) and k == 1:
                 if b.op is None:
@@ -961,10 +1040,62 @@ class _ParenInterp:
                 if isinstance(x, _Elem):
                     return "<L>" if x.side == "left" else "<R>"
                 raise _Undecided("recursive call")
-            if isinstance(f, ast.Name) and isinstance(self.env.get(f.id), ast.FunctionDef):
-                g = self.env[f.id]
+            if isinstance(f, ast.Name) and f.id == "bool" and len(e.args) == 1:
+                x = self.ev(e.args[0])
+                if isinstance(x, (bool, int, str, type(None))):
+                    return bool(x)
+                raise _Undecided("bool()")
+            if isinstance(f, ast.Name) and f.id == "enumerate" and len(e.args) == 1:
+                x = self.ev(e.args[0])
+                if isinstance(x, (list, tuple)):
+                    return [(i, v) for i, v in enumerate(x)]
+                raise _Undecided("enumerate()")
+            if isinstance(f, ast.Name) and f.id in ("list", "tuple") and len(e.args) == 1:
+                x = self.ev(e.args[0])
+                if isinstance(x, (list, tuple)):
+                    return list(x) if f.id == "list" else tuple(x)
+                raise _Undecided("list()")
+            if isinstance(f, ast.Attribute) and f.attr in ("get", "append", "items", "keys", "values", "join"):
+                recv = self.ev(f.value)
+                if isinstance(recv, dict) and f.attr == "get":
+                    k = self.ev(e.args[0])
+                    return recv[k] if k in recv else (self.ev(e.args[1]) if len(e.args) > 1 else None)
+                if isinstance(recv, dict) and f.attr in ("items", "keys", "values"):
+                    return list(getattr(recv, f.attr)())
+                if isinstance(recv, list) and f.attr == "append" and len(e.args) == 1:
+                    recv.append(self.ev(e.args[0]))
+                    return None
+                if isinstance(recv, str) and f.attr == "join" and len(e.args) == 1:
+                    xs = self.ev(e.args[0])
+                    if isinstance(xs, (list, tuple)) and all(isinstance(x, str) for x in xs):
+                        return recv.join(xs)
+                raise _Undecided(f"call {norm(f)[:30]}")
+            callee = None
+            if not (isinstance(f, ast.Attribute) and f.attr == self.fn.name):
+                try:
+                    callee = self.ev(f) if isinstance(f, (ast.Name, ast.Subscript, ast.Call)) else None
+                except _Undecided:
+                    callee = None
+            if isinstance(callee, _Closure):
+                node = callee.node
+                sub = _ParenInterp(self.fn, None, None, None)
+                sub.globals = self.globals
+                sub.env = _Env(callee.env)
+                names = [a.arg for a in node.args.args]
+                for n_, v in callee.defaults.items():
+                    sub.env[n_] = v
+                for n_, a in zip(names, e.args):
+                    sub.env[n_] = self.ev(a)
+                for k in e.keywords:
+                    sub.env[k.arg] = self.ev(k.value)
+                if any(not dict.__contains__(sub.env, n_) for n_ in names):
+                    raise _Undecided("closure called with missing arguments")
+                return sub.ev(node.body)
+            if isinstance(f, ast.Name) and self.env.has(f.id) and isinstance(self.env.lookup(f.id), ast.FunctionDef):
+                g = self.env.lookup(f.id)
                 sub = _ParenInterp(g, None, None, None)
-                sub.env = dict(self.env)
+                sub.globals = self.globals
+                sub.env = _Env(self.env)
                 for a, v in zip([x.arg for x in g.args.args], [self.ev(x) for x in e.args]):
                     sub.env[a] = v
                 for k in e.keywords:
@@ -987,13 +1118,14 @@ def r_paren(E):
                                 "a / b * c): print_tuple_element is run symbolically on every (operator, operand side, "
                                 "operand's own operator) that needs parentheses")
     rel, fn = pm.find_function(EB, "ExplainableObject.print_tuple_element")
+    mod_tree = next((t for m, (r, t, _) in pm.modules.items() if r == rel), None)
     for (op, side), need in sorted(NEEDS.items()):
         for child in sorted(need):
             res.instances += 1
             left = _Elem("left", child if side == "left" else None)
             right = _Elem("right", child if side == "right" else None)
             try:
-                shown = _ParenInterp(fn, op, left, right).run()
+                shown = _ParenInterp(fn, op, left, right, mod_tree).run()
             except _Undecided as u:
                 res.undecided.append(f"print_tuple_element: cannot evaluate symbolically ({u})")
                 continue
